@@ -142,6 +142,13 @@ def run(chk, tier, seed, replay):
                 continue
             seen.add(key)
             reqs.append({"key": key, "derive": req["d"], "item": item, "tokens": False})
+    # the same items with every field type arriving as an invisible group (a `$t:ty` fragment of a macro_rules! macro):
+    # for the attribute-free request of every derive x shape, and for the shapes' field-attributed `bare` requests
+    for rq in list(reqs):
+        d, item = rq["key"].split("|", 1)
+        if "#[" not in item or re.fullmatch(r"[^#]*#\[\w+\] [^#]*", item):
+            k = "group_types|" + rq["key"]
+            reqs.append({"key": k, "derive": rq["derive"], "item": item, "tokens": False, "group_types": True})
     # literals: every short string over an alphabet with 1-4 byte characters, as a format literal
     alph = ["{", "}", ":", "0", "9", "a", "_", "$", ".", "*", "<", " ", "é", "€", "\U0001F600", "?", "\u3000"]
     maxlen = 3 if tier == "quick" else 4
